@@ -12,6 +12,6 @@ META = dict(
 
 
 def obligations(tier):
-    return [Ob('C07.a/number-formatting', 'C07_format.c', engine='L', unwind=6, timeout=600, ovr=['sprintf', 'asprintf', 'snprintf', 'yaml_document_add_scalar'],
+    return [Ob('C07.a/number-formatting', 'C07_format.c', engine='N', unwind=24, timeout=600,
                functions=['add_double', 'add_complex'], bounds='precision 1..1000 symbolic', stubs=['printf-family length contract', 'yaml_document_add_scalar'],
                what='add_double / add_complex never write beyond their buffer for any accepted precision')]
